@@ -67,6 +67,10 @@ def run_property(prop: str, tier: str, seed: int, evidence_dir=None, quiet=False
         rep.stats["inner_functions"] = check_closure_reuse(idx, rep, files)
         from .rules.annotations import check_annotation_forwarding
         rep.stats["self_copies"] = check_annotation_forwarding(idx, rep, files)
+        if prop in ("C02", "C18"):
+            # properties about values computed from frequency dictionaries: a botched refusal (`return ValueError(...)`) hands an exception object on as the value
+            from .rules.exceptions import check_returned_exceptions
+            check_returned_exceptions(idx, rep, files)
         from .rules.elementwise import check_elementwise
         check_elementwise(idx, rep, files)
         from .rules.protocols import check_protocols
